@@ -505,6 +505,14 @@ func (rp *ReverseProxy) ServeHTTP(rw http.ResponseWriter, outreq *http.Request, 
 		//
 		// Most of the time forceSetTrailers should be false.
 		forceSetTrailers := len(res.Trailer) != announcedTrailerKeyCount
+		if forceSetTrailers {
+			// Trailers can only be sent in a chunked response: commit
+			// the header now, before net/http computes a Content-Length
+			// for a short body that is still in its buffer.
+			if fl, ok := rw.(http.Flusher); ok {
+				fl.Flush()
+			}
+		}
 		shallowCopyTrailers(rw.Header(), res.Trailer, forceSetTrailers)
 	}
 
